@@ -352,29 +352,49 @@ def rule_twopass(c, prog):
         raise core.AnchorMissing("the SharedString dictionary collection of EmitState was not found")
     else:
         c.ok(R, "writer:dictionary-complete")
-    # hash text identical on both sides: base64(hash.as_bytes()[..16])
-    def hash_expr(f):
-        """the expression base64-encoded as the hash text, with one level of local resolution"""
-        lets = {st["pat"].get("lid"): st["init"] for st in core.walk_lets(f.body) if st["pat"].get("k") == "Binding" and "init" in st}
-        for x in core.walk_fn(f):
-            if x.get("k") == "Call" and (core.callee(x) or "").startswith("base64::encode"):
-                a = core.strip(x["args"][0])
-                if a.get("res") == "local" and a["lid"] in lets:
-                    a2 = core.strip(lets[a["lid"]])
-                    fp = core.fingerprint(a2, 6)
-                    # resolve one more local inside (full_hash = value.hash())
-                    for y in core.walk(a2):
-                        if y.get("res") == "local" and y.get("lid") in lets:
-                            fp = fp.replace(y["name"], core.fingerprint(lets[y["lid"]], 4))
-                    if "hash" in fp:
-                        return fp
-        return None
-    h1 = hash_expr(fn)
-    h2 = hash_expr(prog.fn("rbx_xml::serializer::serialize_shared_strings"))
-    if h1 and h1 == h2:
+    # hash text identical on both sides: both base64-encode the same function of the string's hash (symbolic value of the
+    # first base64::encode argument, with the string itself as the only free variable)
+    from sa import sym as _sym, wire as _wire
+
+    def hash_term(f):
+        got = []
+
+        def enc(I, n, path, a, env):
+            got.append(I.eval(a[0], env))
+            return ("app", "b64", ())
+
+        def opaque(I, n, path, a, env):
+            for x in a:
+                I.eval(x, env)
+            return _sym.var(_sym.OK, _sym.UNIT)
+        prims = [(re.compile(r"^base64::encode"), enc), (re.compile(r"XmlEventWriter::<W>::"), opaque), (re.compile(r"EmitState::<'db>::add_shared_string$"), opaque)]
+        env = {}
+        for prm in f.params:
+            for b in core.walk(prm):
+                if b.get("k") == "Binding":
+                    env[b["lid"]] = ("in", b["name"])
+        try:
+            _wire.run_region(prog, f.body, env, prims, depth=4, opaque={"rbx_types::shared_string::SharedString::hash", "rbx_types::shared_string::SharedString::data"})
+        except _sym.Unsupported:
+            return None
+        hashes = [t for t in got if "SharedString::hash" in repr(t)]
+        if not hashes:
+            return None
+        t = hashes[0]
+
+        def strip_arg(x):
+            if isinstance(x, tuple) and x and x[0] == "app" and isinstance(x[1], str) and x[1].endswith("SharedString::hash"):
+                return ("app", x[1], (("in", "the-string"),))
+            if isinstance(x, tuple):
+                return tuple(strip_arg(y) if isinstance(y, tuple) else y for y in x)
+            return x
+        return strip_arg(t)
+    h1 = hash_term(fn)
+    h2 = hash_term(prog.fn("rbx_xml::serializer::serialize_shared_strings"))
+    if h1 is not None and h1 == h2:
         c.ok(R, "writer:same-hash-text")
     else:
-        c.violation(R, "writer|hash-text", f"the hash text written by write_shared_string ({h1}) differs from the dictionary key written by serialize_shared_strings ({h2})", fn.sp, instance="writer:same-hash-text")
+        c.violation(R, "writer|hash-text", f"the hash text written by write_shared_string ({_sym.term_str(h1, 5) if h1 else None}) differs from the dictionary key written by serialize_shared_strings ({_sym.term_str(h2, 5) if h2 else None})", fn.sp, instance="writer:same-hash-text")
     # write_ref maps through map_id (allocating), null iff is_none
     fn = prog.fn("rbx_xml::types::referent::write_ref")
     ok = False
